@@ -228,14 +228,34 @@ def property_violations(nest: list, res: dict[str, dict]) -> list[str]:
 
 # ------------------------------------------------------------------------------------------------
 
-def run_case(run: Run, nest: list, history: list[str], pending: list) -> None:
-    """evaluate one (nesting, observer history) on the real code; queue the model request"""
+def node_at(tree, path: list[int]):
+    for i in path:
+        tree = tree.children[i]
+    return tree
+
+
+def inner_paths(nest: list, prefix: tuple = ()) -> list[list[int]]:
+    """paths of all inner (nonterminal) nodes, the root first"""
+    out = [list(prefix)]
+    for i, x in enumerate(nest):
+        if isinstance(x, list):
+            out.extend(inner_paths(x, prefix + (i,)))
+    return out
+
+
+def run_case(run: Run, nest: list, history: list, pending: list) -> None:
+    """evaluate one (nesting, observer history) on the real code; queue the model request.
+    history entries are observer names (applied to the root) or [path, observer] (applied to the inner
+    node at that path of the SAME tree object): asking a subtree, then the enclosing tree, then the
+    subtree again must give what fresh trees give."""
     tree = build_real(nest)
     before = snapshot(tree)
-    hist_res = [observe(tree, o) for o in history]          # same object, in this order
+    hist = [(h if isinstance(h, list) else [[], h]) for h in history]
+    hist_res = [observe(node_at(tree, p), o) for p, o in hist]          # same object, in this order
     after = snapshot(tree)
     fresh = {o: observe(build_real(nest), o) for o in OBS}  # one fresh tree per observer
-    pending.append({"nest": nest, "history": history, "hist_res": hist_res, "fresh": fresh,
+    fresh_at = [observe(node_at(build_real(nest), p), o) for p, o in hist]
+    pending.append({"nest": nest, "history": hist, "hist_res": hist_res, "fresh": fresh, "fresh_at": fresh_at,
                     "mutated": before != after})
 
 
@@ -266,10 +286,10 @@ def check_cases(run: Run, pending: list, corr_failures: list) -> None:
         for msg in property_violations(nest, fresh):
             run.report("C09/view-mismatch", msg, {"kind": "views", "nest": show(nest)})
         # (3b) history independence and purity
-        for o, r in zip(c["history"], c["hist_res"]):
-            if r != fresh[o]:
+        for (pth, o), r, fr in zip(c["history"], c["hist_res"], c["fresh_at"]):
+            if r != fr:
                 run.report("C09/history-dependence",
-                           f"{o}() after {c['history']} gives {r}, a fresh tree gives {fresh[o]}",
+                           f"{o}() of the node at {pth} after {c['history']} gives {r}, a fresh tree gives {fr}",
                            {"kind": "history", "nest": show(nest), "history": c["history"]})
         if c["mutated"]:
             run.report("C09/observer-mutates-tree", "an observer changed the tree or a terminal's shared value",
@@ -302,12 +322,13 @@ def replay(path: str) -> int:
     if rp.get("kind") == "history":
         t = build_real(nest)
         b = snapshot(t)
-        hr = [observe(t, o) for o in rp["history"]]
+        hist = [(h if isinstance(h, list) else [[], h]) for h in rp["history"]]
+        hr = [observe(node_at(t, p), o) for p, o in hist]
         if b != snapshot(t):
             bad.append("tree mutated")
-        for o, r in zip(rp["history"], hr):
-            if r != fresh[o]:
-                bad.append(f"history dependence at {o}")
+        for (p, o), r in zip(hist, hr):
+            if r != observe(node_at(build_real(nest), p), o):
+                bad.append(f"history dependence at {o} of node {p}")
     for b in bad:
         print("FAILS:", b)
     print("replay:", "property violated" if bad else "no violation on the current tree")
@@ -351,11 +372,29 @@ def main(tier: str) -> int:
         leaves = gen_leaves(rng)
         nests = [list(leaves)] + [gen_nesting(rng, leaves) for _ in range(2)]
         for nest in nests:
-            hist = [rng.choice(OBS) for _ in range(rng.randint(1, 6))]
+            paths = inner_paths(nest)
+            hist = [[rng.choice(paths) if rng.random() < 0.5 else [], rng.choice(OBS)]
+                    for _ in range(rng.randint(1, 7))]
             run_case(run, nest, hist, pending)
         if len(pending) >= 3000:
             flush()
     flush()
+    # exhaustive in every tier: all sequences of <= 3 units over text (ASCII, 2-byte, 3-byte UTF-8), empty
+    # text / bytes, a byte >= 0x80, one bit, a whole byte of bits — flat, and with the tail in a subtree that is
+    # asked first, then the whole tree, then the subtree again
+    units = [["a"], ["é"], ["€"], [""], [b""], [b"\xff"], [1], [0, 1, 0, 0, 0, 0, 0, 1]]
+    for n in range(0, 4):
+        for combo in itertools.product(units, repeat=n):
+            seq = [x for u in combo for x in u]
+            run_case(run, seq, ["str", "bytes", "bits", "int", "type"], pending)
+            if n >= 2:
+                head, tail = list(combo[0]), [x for u in combo[1:] for x in u]
+                nest = [tail, *head] if n == 2 else [*head, tail]
+                sub = [0] if n == 2 else [len(head)]
+                run_case(run, nest, [[sub, "int"], [sub, "bits"], [[], "str"], [[], "bytes"], [sub, "int"],
+                                     [sub, "type"], [[], "bits"], [sub, "bits"]], pending)
+    flush()
+    run.coverage["exhaustive_units"] = "all sequences of <= 3 units over 8 leaf units, flat and with a subtree history"
     if tier == "thorough":
         # exhaustive: every sequence of <= 4 leaves over a small alphabet, flat and two fixed nestings
         alpha = ["a", "é", b"\xff", 0, 1]
